@@ -17,6 +17,11 @@ import PoaVerif.Witness.D6
 namespace PoaVerif.Props.C02
 open App
 
+/-- Tie A side condition: the consensus-power query — the chain's own statement of a validator's voting power, which
+    this property compares with CometBFT's set — decodes the address, requires the validator record and reads x/staking's
+    last validator power -/
+theorem facts_query_power : Generated.powerQueryShape = true := by decide
+
 /-- Tie A side condition: in the EndBlocker order x/gov comes before x/poa and x/staking.  Messages of passed governance
     proposals (the default PoA admin is the gov account) are executed by x/gov's EndBlocker; the model — and the property
     — place every admin operation of a block before x/staking's EndBlocker computes that block's validator updates. -/
